@@ -22,7 +22,7 @@ from pv.codec import build, Env, token, vtoken, is_nan_spec
 
 ASSUMPTIONS = [
     'cells are None, ints, finite python floats, float NaN objects (2 identities) and strings, as in the quantifier (no +-inf: is_nan treats inf as NaN by design; no bools, no dates)',
-    'column names come from {a,b,c,k}: never a dictable/Dict method, a constructor parameter (data, columns) or a keyword of one_or_none (exc, find)',
+    'column names come from {a,ab,b,ba,c,k} (nested names on purpose): never a dictable/Dict method, a constructor parameter (data, columns) or a keyword of one_or_none (exc, find)',
     'a condition is a scalar value (int / finite float / str), a list of 0-3 admissible non-NaN values (None allowed in the list), None, a NaN object, or a compiled regex; "value" means python equality (cell is v or cell == v, so 1 matches 1.0)',
     'lists of admissible values never contain NaN (membership of a NaN in a list is identity based in python; the statement has NaN as a condition of its own)',
     'a conjunction has at most one condition per column (a dict filter and a keyword on the same column overwrite each other rather than conjoin)',
@@ -31,13 +31,20 @@ ASSUMPTIONS = [
     'rows are compared cell by cell with a type-strict token in which every NaN is one token (1 and 1.0 differ, NaN equals NaN)',
     'find_<col>: when two or more selected rows hold NaN in <col> and nothing else, both "returns NaN" and "raises ValueError" are accepted (whether two NaNs are one value is not decided by the statement)',
     'find_<col> values are compared by python equality (1 and 1.0 are one value)',
+    'results must be new table objects, never the operand itself, even when the selection keeps every row (inc and exc both start from self.copy(); a result that IS the table would let later edits of the result change the table); sharing of the column list objects is not checked',
+    'large tables (64-200 rows, thorough up to 500) are short per-column patterns repeated, i.e. few distinct values and many duplicate rows',
     'one_or_none is checked only as an observation point of the rows inc selects, following its docstring: None for no row, the row for one, ValueError for several',
 ]
 
 KNOWN = {}
 
-COLS = ['a', 'b', 'c', 'k']
-PATTERNS = ['a', '^a', 'b$', '.', '', 'A|b']
+COLS = ['a', 'ab', 'b', 'ba', 'c', 'k']                  # names that are prefixes / suffixes / substrings of one another, and equal to cell values
+STR_PATTERNS = ['a', '^a', 'b$', '.', '', 'A|b']
+# patterns that match str() of a NON-string cell (1, 1.0, 2.5, -1.5, 1000, None, nan): a regex condition must still reject those cells
+COERCE_PATTERNS = ['1', '0', r'\.5', '-', 'N', 'on', 'nan', '^[0-9.]+$']
+PATTERNS = STR_PATTERNS + COERCE_PATTERNS
+LARGE_QUICK = [64, 65, 100, 128, 200]
+LARGE_THOROUGH = [64, 65, 100, 128, 200, 257, 500]
 
 # ----------------------------------------------------------------------------- messages
 
@@ -77,6 +84,17 @@ def _sat(cell, cond, env):
     raise ValueError('unknown condition %r' % (cond,))
 
 
+def _fresh(v):
+    """an object equal to v but (where CPython allows) not identical to the cell object it was drawn from"""
+    if isinstance(v, float) and v == v:
+        return float(repr(v))
+    if isinstance(v, str) and len(v) >= 2:
+        return ''.join(list(v))
+    if isinstance(v, int) and not isinstance(v, bool) and abs(v) > 256:
+        return int(str(v))
+    return v
+
+
 def _cond_value(cond, env):
     """the object handed to pyg_base for a column condition"""
     kind, payload = cond
@@ -87,9 +105,9 @@ def _cond_value(cond, env):
     if kind == 'regex':
         return re.compile(payload)
     if kind == 'val':
-        return build(payload, env)
+        return _fresh(build(payload, env))
     if kind == 'list':
-        return [build(p, env) for p in payload]
+        return [_fresh(build(p, env)) for p in payload]
     raise ValueError('unknown condition %r' % (cond,))
 
 
@@ -185,6 +203,8 @@ def _build_table(spec, env):
     from pyg_base import dictable
     cols = spec['cols']
     data = {c: [build(v, env) for v in spec['data'][c]] for c in cols}
+    if spec.get('tile'):          # large table: every column is its (short) pattern repeated up to `tile` rows
+        data = {c: [data[c][i % len(data[c])] for i in range(spec['tile'])] for c in cols}
     n = len(data[cols[0]])
     d = dictable({c: list(data[c]) for c in cols})
     # harness sanity (not a violation): the constructor must have given us the table we describe
@@ -201,7 +221,9 @@ def _condition(spec_cond, data, env):
         conds = spec_cond['conds']        # [[col, kind, payload], ...]  at most one per column
         form = spec_cond['form']
         values = [(c, _cond_value([k, p], env)) for c, k, p in conds]
-        if form == 'kw' or not conds:
+        if not conds:
+            pos, kw = ([{}] if form == 'dict' else []), {}       # inc() and inc({}): no condition
+        elif form == 'kw':
             pos, kw = [], dict(values)
         elif form == 'dict':
             pos, kw = [dict(values)], {}
@@ -222,6 +244,7 @@ def _condition(spec_cond, data, env):
 
         def selected(i):
             return all(_sat(data[c][i], [k, p], env) for c, k, p in conds)
+        caller.values = values
         return desc, caller, selected
     else:
         args = spec_cond['args']
@@ -240,6 +263,15 @@ def _condition(spec_cond, data, env):
         return desc, caller, selected
 
 
+def _shape_classes(spec, cols, n):
+    cls = []
+    if spec.get('tile'):
+        cls += ['large', 'large_n=%i' % n]
+    if any(a != b and a in b for a in cols for b in cols):
+        cls.append('nested_column_names')
+    return cls
+
+
 # ----------------------------------------------------------------------------- oracle: partition
 
 def run_partition(spec):
@@ -252,7 +284,8 @@ def run_partition(spec):
     tdesc = _T(short({c: data[c] for c in cols}, 200))
     all_rows = _rows(data, scols, n)
     sel = [i for i in range(n) if selected(i)]
-    unsel = [i for i in range(n) if i not in set(sel)]
+    selset = set(sel)
+    unsel = [i for i in range(n) if i not in selset]
     exp_inc = [all_rows[i] for i in sel]
     exp_exc = [all_rows[i] for i in unsel]
     no_cond = spec['cond']['kind'] == 'filters' and not spec['cond']['conds']
@@ -278,21 +311,46 @@ def run_partition(spec):
     got_again = _table_rows(_T('inc%s applied twice to %s' % (desc, tdesc)), again, cols)
     check(list(got_again) == list(got_inc), 'inc%s is not idempotent on dictable(%s): once %s, twice %s', desc, tdesc, got_inc, got_again)
 
+    # a selection that keeps everything must still be a new table, not the operand itself (both methods start from self.copy())
+    check(inc is not d, 'dictable(%s).inc%s returned the table object itself, so changing the result changes the table', tdesc, desc)
+    check(again is not inc, 'inc%s applied to its own result returned that very object', desc)
+    if not no_cond:
+        check(exc is not d, 'dictable(%s).exc%s returned the table object itself, so changing the result changes the table', tdesc, desc)
+
     # ---- classes
-    cls = ['n=%s' % ('0' if n == 0 else '1' if n == 1 else '2+'), 'ncols=%i' % len(cols)]
+    cls = ['n=%s' % ('0' if n == 0 else '1' if n == 1 else '2+'), 'ncols=%i' % len(cols)] + _shape_classes(spec, cols, n)
     special = False
     if spec['cond']['kind'] == 'filters':
         conds = spec['cond']['conds']
-        cls.append('form=%s' % (spec['cond']['form'] if conds else 'none'))
+        form = spec['cond']['form']
+        cls.append('form=%s' % (form if conds else 'emptydict' if form == 'dict' else 'none'))
         cls.append('nconds=%i' % len(conds))
-        for c, k, p in conds:
+        for (c, k, p), (_, v) in zip(conds, caller.values):
             cls.append('cond=' + k)
             if k in ('none', 'nan', 'regex'):
                 special = True
             if k == 'list':
-                cls.append('list_len=%i' % len(p))
-            if k == 'nan' and any(_is_nan(v) for v in data[c]):
+                cls.append('list_len=%s' % (len(p) if len(p) < 4 else '4-63' if len(p) < 64 else '64+'))
+                if any(x is y or x == y for i, x in enumerate(v) for y in v[:i]):
+                    cls.append('dup_in_list')
+            if k == 'nan' and any(_is_nan(x) for x in data[c]):
                 cls.append('nan_cond_on_nan_column')
+            if k == 'regex' and any(not isinstance(x, str) and re.search(p, str(x)) is not None for x in data[c]):
+                cls.append('regex_matches_str_of_nonstr_cell')       # where a str()-coercing implementation would differ
+            if k in ('val', 'list'):
+                vs = [v] if k == 'val' else v
+                if any(x == y and x is not y for x in data[c] for y in vs):
+                    cls.append('equal_not_identical')
+                if any(y is None or (not y and not _is_nan(y)) for y in vs) or (k == 'list' and not vs):
+                    cls.append('falsy_condition_value')
+        if len(conds) >= 2:
+            per_row = [sum(1 for c, k, p in conds if _sat(data[c][i], [k, p], env)) for i in range(n)]
+            if any(0 < m < len(conds) for m in per_row):
+                cls.append('row_satisfies_some_not_all')
+                if form in ('split', 'dicts'):
+                    cls.append('row_satisfies_some_not_all_across_containers')
+            if [c for c, k, p in conds] != [c for c in cols if c in [x[0] for x in conds]]:
+                cls.append('conds_not_in_column_order')
     else:
         cls.append('fn=' + spec['cond']['fn'])
         cls.append('nargs=%i' % len(spec['cond']['args']))
@@ -310,6 +368,12 @@ def run_partition(spec):
             cls.append('nothing')
         if len(sel) == 1 or len(sel) == n - 1:
             cls.append('single_row_part')
+        if n >= 2 and sel == [0]:
+            cls.append('only_first_row')
+        if n >= 2 and sel == [n - 1]:
+            cls.append('only_last_row')
+        if len(sel) in (0, n):
+            cls.append('noop_selection')      # one of the two results is the whole table: must be a copy, not the operand
     if len(set(all_rows)) < n:
         cls.append('duplicate_rows')
     if cols != scols:
@@ -335,7 +399,7 @@ def run_find(spec):
     what = _T('dictable(%s).find_%s%s' % (tdesc, col, desc))
     ok, res = call_or(what, (ValueError,), caller, d, 'find_' + col)
     _unchanged(_T('find_%s%s' % (col, desc)), d, snap)
-    cls = ['ncols=%i' % len(cols), 'cond=' + (spec['cond']['kind'])]
+    cls = ['ncols=%i' % len(cols), 'cond=' + (spec['cond']['kind'])] + _shape_classes(spec, cols, n)
     if spec['cond']['kind'] == 'callable' and spec['cond'].get('ret', 'bool') != 'bool':
         cls += ['nonbool_result', 'ret=' + spec['cond']['ret']]
     if len(sel) == 0:
@@ -399,7 +463,7 @@ _FLOATS = st.sampled_from([-1.5, 0.0, 1.0, 2.0, 2.5])
 _STRS = st.sampled_from(['', 'a', 'ab', 'b', 'A'])
 _NAN = st.integers(0, 1).map(lambda k: ['nan', k])
 _CELL = st.one_of(st.integers(0, 3), _STRS, st.none(), _FLOATS, _NAN, _INTS)
-_VALUE = st.one_of(_INTS, _FLOATS, _STRS)            # a scalar condition value (None / NaN are conditions of their own)
+_VALUE = st.one_of(_INTS, _FLOATS, _STRS, st.sampled_from([1000, 'aba']))            # a scalar condition value (None / NaN are conditions of their own)
 
 # column flavours: small pools make equal cells, full matches and empty matches frequent
 _FLAVOURS = {
@@ -411,15 +475,23 @@ _FLAVOURS = {
     'one_onefloat': st.one_of(st.sampled_from([1, 1.0, 2]), _NAN, st.none()),
     'strs_none_ints': st.one_of(_STRS, st.none(), st.integers(0, 1)),
     'none_nan': st.one_of(st.none(), _NAN),
+    'big': st.sampled_from([1000, 1000.0, 'ab', 'aba', 2.5, 10]),        # objects CPython does not share: equal is not identical
 }
 _FLAVOUR = st.sampled_from(['mixed', 'mixed', 'const'] + sorted(_FLAVOURS))
 
 
 @st.composite
-def _table(draw, max_rows, max_cols):
-    n = draw(st.one_of(st.integers(0, max_rows), st.integers(2, max_rows)))
+def _table(draw, max_rows, max_cols, large):
     ncols = draw(st.integers(1, max_cols))
     cols = list(draw(st.permutations(COLS))[:ncols])
+    if draw(st.sampled_from([False, False, False, True, False, False, False, False, False, False, False, False])):
+        # a LARGE table with few distinct values: short column patterns repeated (size thresholds / vectorised paths)
+        data = {}
+        for c in cols:
+            fl = draw(_FLAVOUR)
+            data[c] = [draw(_CELL)] if fl == 'const' else draw(st.lists(_FLAVOURS[fl], min_size=1, max_size=5))
+        return dict(cols=cols, data=data, tile=large[draw(st.integers(0, 9999)) % len(large)])
+    n = draw(st.one_of(st.integers(0, max_rows), st.integers(2, max_rows)))
     data = {}
     for c in cols:
         fl = draw(_FLAVOUR)
@@ -453,8 +525,11 @@ def _column_cond(draw, cells):
         kinds += ['none', 'none']
     if has_nan:
         kinds += ['nan', 'nan']
+    has_nonstr = any(not isinstance(v, str) for v in cells)
     if has_str:
         kinds += ['regex', 'regex']
+    if has_nonstr and draw(st.integers(0, 2)) == 0:
+        kinds += ['regex']               # a regex condition on non-string cells must reject them, whatever their str() looks like
     if draw(st.integers(0, 4)) == 0 or not kinds:
         kinds = ['val', 'list', 'none', 'nan', 'regex']      # whether or not the column holds such cells
     kind = draw(st.sampled_from(kinds))
@@ -463,21 +538,34 @@ def _column_cond(draw, cells):
     if kind == 'nan':
         return ['nan', draw(st.sampled_from([0, 1, 7]))]       # a NaN object of the table, or a fresh one
     if kind == 'regex':
-        return ['regex', draw(st.sampled_from(PATTERNS))]
+        if has_str and has_nonstr:
+            pats = STR_PATTERNS + COERCE_PATTERNS
+        elif has_str:
+            pats = STR_PATTERNS * 3 + COERCE_PATTERNS
+        else:
+            pats = COERCE_PATTERNS * 2 + STR_PATTERNS
+        return ['regex', pats[draw(st.integers(0, 9999)) % len(pats)]]
     pool = st.sampled_from(present) if present else _VALUE
     if kind == 'val':
         return ['val', draw(st.one_of(pool, pool, pool, _VALUE))]
     # list of admissible values
-    mode = draw(st.sampled_from(['some', 'some', 'some', 'some', 'all', 'all', 'empty', 'foreign']))
+    mode = ['some', 'some', 'dup', 'some', 'all', 'long', 'some', 'all', 'empty', 'foreign', 'some', 'all'][draw(st.integers(0, 9999)) % 12]
     if mode == 'empty':
         return ['list', []]
+    if mode == 'long':         # 64+ admissible values (a set / vectorised lookup must keep python-equality semantics), some of them in the column
+        keep = draw(st.lists(pool, max_size=3)) if present else []
+        keep = [float(v) if isinstance(v, int) and i % 2 == 0 else v for i, v in enumerate(keep)]      # an int cell listed as its float twin
+        return ['list', list(range(100, 130)) + keep + [100.0 + i for i in range(30, 70)] + ([None] if draw(st.booleans()) else [])]
+    if mode == 'dup':          # the same admissible value listed twice (also as 1 and 1.0)
+        vs = draw(st.lists(st.one_of(pool, pool, _VALUE, st.none()), min_size=1, max_size=2))
+        return ['list', draw(st.permutations(vs + vs[:1]))]
     if mode == 'all':
         vs = list(present) + ([None] if has_none else [])
         return ['list', draw(st.permutations(vs)) if vs else []]
     if mode == 'foreign':
         return ['list', draw(st.lists(st.sampled_from([9, 'zz', 7.5]), min_size=1, max_size=3, unique=True))]
     elem = st.one_of(pool, pool, pool, _VALUE, st.none())
-    return ['list', draw(st.lists(elem, min_size=1, max_size=3, unique_by=repr))]
+    return ['list', draw(st.lists(elem, min_size=1, max_size=3))]
 
 
 @st.composite
@@ -490,14 +578,17 @@ def _filters_cond(draw, table, allow_none_form=True):
     for c in chosen:
         kind, payload = draw(_column_cond(table['data'][c]))
         conds.append([c, kind, payload])
-    form = draw(st.sampled_from(['kw', 'kw', 'dict', 'split', 'dicts']))
+    if len(conds) >= 2:      # conjunctions spread over several containers: dict + keywords, several dicts
+        form = draw(st.sampled_from(['split', 'kw', 'dicts', 'dict', 'split', 'dicts']))
+    else:
+        form = draw(st.sampled_from(['kw', 'dict', 'kw']))
     return dict(kind='filters', form=form, conds=conds)
 
 
 @st.composite
 def _callable_cond(draw, table):
     cols = table['cols']
-    n = len(table['data'][cols[0]])
+    n = min(table.get('tile') or len(table['data'][cols[0]]), 12)      # rows whose values may be declared true (a large table repeats them)
     fn = draw(st.sampled_from(['table', 'table', 'table'] + sorted(_CATALOGUE)))
     # about 40% of the callables return their verdict as a truthy / falsy non-bool
     ret = 'bool'
@@ -517,7 +608,7 @@ def _callable_cond(draw, table):
 
 
 def _sizes(tier):
-    return (8, 3) if tier == 'quick' else (12, 4)
+    return (8, 3, LARGE_QUICK) if tier == 'quick' else (12, 4, LARGE_THOROUGH)
 
 
 @st.composite
@@ -557,7 +648,7 @@ ENUM_CONDS = [
     ['val', 1], ['val', 1.0], ['val', 2], ['val', 'a'], ['val', 'b'], ['val', 5],
     ['list', []], ['list', [1, 'a']], ['list', [None, 2]], ['list', [1.0, 2, 'ab']], ['list', ['zz']],
     ['none', None], ['nan', 0], ['nan', 7],
-    ['regex', 'a'], ['regex', '^a$'], ['regex', 'b$'], ['regex', ''],
+    ['regex', 'a'], ['regex', '^a$'], ['regex', 'b$'], ['regex', ''], ['regex', '1'], ['regex', 'on'], ['regex', 'nan'],
 ]
 ENUM_MAX_ROWS = 4
 
@@ -585,26 +676,34 @@ def enum_small(tier):
 
 SUBS = [
     Sub('filters', _filters_case, run_partition, quick=3000, thorough=30000,
-        rule='tables of 0-8 rows x 1-3 columns (thorough 0-12 x 1-4) of None/ints/floats/NaN objects/strings; a conjunction of 0-3 column conditions '
+        rule='tables of 0-8 rows x 1-3 columns (thorough 0-12 x 1-4) of None/ints/floats/NaN objects/strings, about 8% of them LARGE (64/65/100/128/200 rows, thorough also 257/500: '
+             'short column patterns repeated), column names nested in one another; a conjunction of 0-3 column conditions '
              '(value, list of admissible values, None, NaN, compiled regex) passed as keywords, one dict, dict + keywords, or several dicts. '
              'oracle: plain list-of-records filter; inc = satisfying rows in order, exc = the others in order, both with all columns, lengths add up, '
              'inc() = identity, inc twice = once, table untouched. non-trivial = at least one row and (both parts non-empty, or a None/NaN/regex condition, '
              'or the condition matches all / no rows); distinct = distinct spec',
         floor=0.5,
-        class_floors={'both_nonempty': 0.2, 'all': 0.03, 'nothing': 0.08, 'cond=nan': 0.05, 'cond=none': 0.05, 'cond=regex': 0.05, 'cond=list': 0.1,
-                      'cond=val': 0.1, 'nconds=2': 0.1, 'form=none': 0.03, 'interleaved': 0.05, 'n=0': 0.01, 'nan_cond_on_nan_column': 0.02}),
+        class_floors={'both_nonempty': 0.15, 'all': 0.03, 'nothing': 0.08, 'cond=nan': 0.05, 'cond=none': 0.05, 'cond=regex': 0.05, 'cond=list': 0.1,
+                      'cond=val': 0.1, 'nconds=2': 0.1, 'form=none': 0.02, 'form=emptydict': 0.01, 'interleaved': 0.05, 'n=0': 0.01,
+                      'nan_cond_on_nan_column': 0.02,
+                      # the bug classes of the brief's appendix
+                      'large': 0.04, 'duplicate_rows': 0.25, 'dup_in_list': 0.015, 'list_len=64+': 0.008, 'equal_not_identical': 0.03,
+                      'columns_not_alphabetical': 0.2, 'conds_not_in_column_order': 0.03, 'noop_selection': 0.3, 'falsy_condition_value': 0.08,
+                      'nested_column_names': 0.15, 'only_first_row': 0.005, 'only_last_row': 0.005,
+                      'row_satisfies_some_not_all_across_containers': 0.03, 'regex_matches_str_of_nonstr_cell': 0.015}),
     Sub('predicate', _predicate_case, run_partition, quick=2000, thorough=15000,
         rule='same tables; ONE callable over 1-3 named columns: a catalogue of total predicates (is None, is NaN, is str, > 0, str(a) < str(b), a == b, '
              'constant True / False) or an arbitrary truth table on the rows; in about 40% of the cases the verdict is returned as a truthy / falsy non-bool (0/1, 0/2, None/x, empty/non-empty str or list, or a kind that varies from row to row). oracle: the truth value of the same python predicate applied to the plain records. '
              'non-trivial = at least one row and (both parts non-empty or all / nothing selected)',
-        floor=0.5, class_floors={'both_nonempty': 0.2, 'all': 0.03, 'nothing': 0.05, 'fn=table': 0.2, 'nargs=2': 0.1, 'nonbool_result': 0.25,
+        floor=0.5, class_floors={'both_nonempty': 0.15, 'all': 0.03, 'nothing': 0.05, 'fn=table': 0.2, 'nargs=2': 0.1, 'nonbool_result': 0.25,
+                                 'large': 0.025, 'nested_column_names': 0.15, 'noop_selection': 0.3, 'duplicate_rows': 0.25,
                                  'ret=int01': 0.02, 'ret=int02': 0.02, 'ret=none_x': 0.02, 'ret=str': 0.02, 'ret=list': 0.02, 'ret=mixed': 0.02}),
     Sub('find', _find_case, run_find, quick=2500, thorough=15000,
         rule='same tables and conditions (filters or one callable, whose verdict is a non-bool truthy / falsy value in about 40% of the callable cases) plus a column: find_<col>(condition) must return the one value held by the selected rows and '
              'raise ValueError when no row or two different values are selected; one_or_none(condition[, exc=][, find=]) must give None / the row / ValueError '
              'for 0 / 1 / several selected rows. non-trivial = the selection is not a single row',
         floor=0.3, class_floors={'none_selected': 0.1, 'multiple_values': 0.1, 'unique_from_many': 0.05, 'single_row': 0.05, 'one_or_none_exc': 0.1,
-                                 'nonbool_result': 0.05}),
+                                 'nonbool_result': 0.05, 'large': 0.03, 'nested_column_names': 0.15}),
     EnumSub('small_enum', enum_small, run_partition, thorough_only=True, chunks=64,
             rule='every 1-column table of 0-%i rows over the pool %s x %i single-column conditions x {keyword, dict}; same oracle as filters'
                  % (ENUM_MAX_ROWS, ENUM_POOL, len(ENUM_CONDS))),
